@@ -246,7 +246,9 @@ func c01ArgAlphabet() []nodeFn {
 	for _, v := range []string{"abc", "", "fs", "%d %s", "[", "(a", "bool", "int", "float", "str", "string", "s", "ms", "RFC3339", "ANSIC",
 		"+8", "Asia/Shanghai", "Nope/Zone", "%{INT:x}", "%{NOPE}", "%{WORD:w} %{INT:n:int}", "//b", "a%zz", "2021-01-02 03:04:05",
 		// texts that end in the middle of something: a format directive with a dangling flag, a template reference, a lone backslash
-		"%Y-%m-%d %-", "${1", "\\"} {
+		"%Y-%m-%d %-", "${1", "\\",
+		// a well-formed XPath expression the engine cannot evaluate
+		"//b[starts-with(1, 2)]"} {
 		v := v
 		add(func() *rt.Node { return S(v) })
 	}
